@@ -109,7 +109,7 @@ def _self_fields_used(f, arg_locals=(1,)):
 
 def rule_SER(FA):
     out = []
-    props = ['C11', 'C19']
+    props = ['C11', 'C19', 'C04', 'C09']   # a value obtained by deserializing is a state the safe API (C04) and the prefetch paths (C09) must handle
     for base in closure_adts(FA):
         adt = FA.adts[base]
         fields = [x['name'] for x in adt['fields']]
